@@ -25,7 +25,8 @@ import (
 // Owners are real 20-byte account addresses chosen at the edges of the key space (the prefix iterator's end
 // bound for B is computed by carrying over twenty 0xff bytes; A's end bound is exactly B's prefix).
 // Serial classes are chosen so that their big-endian byte encodings (the key suffix) are prefixes of one
-// another: 0 -> "", 1 -> 01, 255 -> ff, 256 -> 0100, 2^64 -> 01 00*8, 2^159 -> 80 00*19.
+// another: 0 -> "", 1 -> 01, 255 -> ff, 256 -> 0100, 2^64 -> 01 00*8, 2^159 -> 80 00*19, and, longer than the
+// 20 octets of RFC 5280, 2^160 -> 01 00*20, 2^160+1, 2^168 (22 octets), 2^255 (32), 2^319 (40).
 var ownerBytes = map[string][]byte{
 	"A": append(bytes.Repeat([]byte{0xff}, 19), 0xfe),
 	"B": bytes.Repeat([]byte{0xff}, 20),
@@ -46,11 +47,22 @@ func serialOf(class string) *big.Int {
 		return new(big.Int).Lsh(big.NewInt(1), 64)
 	case "s2e159":
 		return new(big.Int).Lsh(big.NewInt(1), 159)
+	// beyond the 20 octets RFC 5280 allows; Go's x509 creates and parses them, so any account can submit them
+	case "s2e160": // 21 octets: 01 00*20
+		return new(big.Int).Lsh(big.NewInt(1), 160)
+	case "s2e160p1": // 21 octets: 01 00*19 01
+		return new(big.Int).Add(new(big.Int).Lsh(big.NewInt(1), 160), big.NewInt(1))
+	case "s2e168": // 22 octets
+		return new(big.Int).Lsh(big.NewInt(1), 168)
+	case "s2e255": // 32 octets
+		return new(big.Int).Lsh(big.NewInt(1), 255)
+	case "s2e319": // 40 octets
+		return new(big.Int).Lsh(big.NewInt(1), 319)
 	}
 	return nil
 }
 
-var allSerialClasses = []string{"z0", "s1", "s255", "s256", "s2e64", "s2e159"}
+var allSerialClasses = []string{"z0", "s1", "s255", "s256", "s2e64", "s2e159", "s2e160", "s2e160p1", "s2e168", "s2e255", "s2e319"}
 
 type certBody struct {
 	Issuer        string // model id of the account in the ISSUER name (= Owner when self-issued)
